@@ -5,7 +5,7 @@
  *
  *   vector clocks per thread; FastTrack-style shadow (last write epoch + read clock per thread) per 4-byte cell of the
  *   DATA ranges: the stored values and row subscripts of L and U (Glu->lusup, lsub, ucol, usub) - what C03 calls "the stored
- *   rows or values of a supernode".
+ *   rows or values of a supernode" - and their column pointers (xlsub, xlsub_end, xlusup, xlusup_end, xusub, xusub_end, xprune).
  *   Synchronisation edges, all taken from what the code really uses to publish a column:
  *     - vf_mutex_lock/unlock, thread create/join;
  *     - every access to a cell of a SYNC range: spin_locks[] (the column flag), pan_status[] (STATE/ukids: "panel DONE" is published by a
